@@ -93,7 +93,7 @@ NOT_UNITS = {"Length": ["s", "min", "m/s", "xyz", "", "kmm", "M"],
              "Speed": ["m", "s", "h", "xyz", "", "m/"],
              "Energy": ["m", "N.m", "xyz", "", "j"],
              "Torque": ["J", "kJ", "xyz", "", "Nm"]}
-STRS = ["", "a", "abc", "a.b", "ünï", "0", "AZ", "km", "x" * 40]
+STRS = ["", "a", "abc", "a.b", "ünï", "0", "AZ", "km", "x" * 40, " a", "AZ\n", "\t", " | "]   # (blanks are characters)
 REFUSAL = (TypeError, ValueError)
 
 
@@ -129,7 +129,7 @@ _SI_BOUNDS = [(None, None), (["i", 0], ["i", 5000]), (["f", _fl(0.0)], ["f", _fl
 _BAD_BOUNDS = [(["i", 5], ["i", 5]), (["i", 10], ["i", 0]), (["f", _fl(1.0)], ["f", _fl(1.0)]),
                (["f", "inf"], ["f", "-inf"]), (["f", "inf"], ["f", "inf"])]
 _OPTS = [["a", "b", "c"], ["AZ", "DE", "MD", "CA", "AK", "MD", "VA"], ["x"], [], ["", "a"], ["km", "m", "0"],
-         ["abc", "a.b", "ünï"]]
+         ["abc", "a.b", "ünï"], ["a", " a", "a "]]
 _PRIOS = [["i", 1], ["f", _fl(1.0)], ["i", 2], ["f", _fl(2.0)], ["f", _fl(0.5)], ["i", 3], ["i", -1],
           ["i", 1], ["i", 2],
           # different but nearly equal priorities: still ordered, no tie
